@@ -404,6 +404,10 @@ class Frame:
         self.depth = depth
 
 
+_CALL_CACHE: Dict[int, list] = {}
+_STRIP_CACHE: Dict[str, str] = {}
+
+
 def strip_ty(t: str) -> str:
     return M.strip_generics(t)
 
@@ -782,7 +786,10 @@ class Interp:
             return [self.eval_operand(fr, o) for _, o in rv.extra]
         if rv.op == 'closure':
             return Agg(rv.ty, 'closure', [self.eval_operand(fr, o) for _, o in rv.extra])
-        name = strip_ty(rv.ty)
+        name = _STRIP_CACHE.get(rv.ty)
+        if name is None:
+            name = strip_ty(rv.ty)
+            _STRIP_CACHE[rv.ty] = name
         vals = [self.eval_operand(fr, o) for _, o in rv.extra]
         # atomic memory orderings and other C-like std enums as scalars
         m = re.search(r'atomic::Ordering::(\w+)$', name)
@@ -1096,6 +1103,11 @@ class Interp:
             return
         if callable(v) and not isinstance(v, (Agg, list)):
             return
+        if type(v).__name__ == 'PyIter':
+            for k, vv in v.items[v.pos:]:
+                self.drop_value(k, where)
+                self.drop_value(vv, where)
+            return
         if isinstance(v, MutexGuardV):
             if not v.released:
                 v.released = True
@@ -1163,15 +1175,23 @@ class Interp:
         if t.callee_op is not None:
             f = self.eval_operand(fr, t.callee_op)
             return self.call_value(f, args)
-        name = callee_name(t)
+        info = _CALL_CACHE.get(id(t))
+        if info is None:
+            name = callee_name(t)
+            targets = self.prog.resolve(name, len(t.args))
+            info = [name, targets, False, t]
+            _CALL_CACHE[id(t)] = info
+        name, targets, passthrough = info[0], info[1], info[2]
         if self.trace_calls:
             print('  ' * min(self.depth, 20) + name, [repr(a)[:60] for a in args], file=sys.stderr)
+        if passthrough:
+            return self.call_fn(targets[0], args)
         res = self.env.model(self, name, t, args, fr)
         if res is not NotImplemented:
             self.modelled[name] = self.modelled.get(name, 0) + 1
             return res
-        targets = self.prog.resolve(name, len(t.args))
         if len(targets) == 1:
+            info[2] = True      # a crate function that no model intercepts: execute its MIR directly from now on
             return self.call_fn(targets[0], args)
         if len(targets) > 1:
             f = self.env.disambiguate(self, name, targets, args, t)
